@@ -1,0 +1,16 @@
+//go:build !verif
+
+package process
+
+// Verification hooks (see simhook_on.go). Without the `verif` build tag they are
+// empty and the compiler removes the calls.
+
+func simSpawn(p *Process, re *RuntimeEnvironment, np bool) bool { return false }
+func simStep(p *Process, re *RuntimeEnvironment)                {}
+func simBefore(p *Process, re *RuntimeEnvironment, kind SimOpKind, data chan Message, ctlOut chan ControlMessage, ctlIn chan ControlMessage) {
+}
+func simAfter(p *Process, re *RuntimeEnvironment, what SimOpResult)             {}
+func simEvent(p *Process, re *RuntimeEnvironment, kind SimEventKind, rule Rule) {}
+func simClose(p *Process, re *RuntimeEnvironment, n Name)                       {}
+
+func simRecoverTypecheck() {}
